@@ -706,6 +706,7 @@ var dmFamilies = []struct{ name, unit string }{
 	{"upper(C40)", "A"}, {"lower(Text)", "a"}, {"x12", ">"}, {"edifact", "@"}, {"latin1(Base256)", "é"}, {"mixed", "Ab1 "},
 	{"edifact2", ".@"}, {"digits+upper", "12AB"},
 	{"macro05:edifact2", ".@"}, {"macro06:upper(C40)", "A"}, {"macro05:lower(Text)", "a"}, {"macro06:digits", "7"}, {"macro05:x12", ">"}, {"macro06:latin1(Base256)", "é"},
+	{"x12 mixed", "AB*"}, {"digit pair + x12", "12AB*CD>EF*"}, {"digit + x12", "1AB*CD>EF*GH>"}, {"digit + upper(C40)", "1ABCDEFGHIJKL"}, {"digit pair + lower(Text)", "12abcdefghijkl"},
 }
 
 func dmContent(fam, n int) string {
@@ -727,7 +728,8 @@ func dmContent(fam, n int) string {
 }
 
 type dmRead struct {
-	k      int // number of data codewords before the padding starts (0 when the stream does not decode)
+	k      int    // number of data codewords before the padding starts (0 when the stream does not decode)
+	cw     []byte // the symbol's data codewords (padding included)
 	w, h   int
 	text   string
 	ok     bool // symbol returned
@@ -766,6 +768,7 @@ func dmWriteRead(content string, shape int, min, max dmDim) (r dmRead) {
 		return
 	}
 	var pad int
+	r.cw = cw[:sym.DataCW]
 	r.text, pad, r.decErr = dm.DecodeStreamPad(cw[:sym.DataCW])
 	if r.decErr == nil {
 		r.k = pad
@@ -845,7 +848,7 @@ func dmNonDigit() {
 			jobs = append(jobs, job{f, n})
 		}
 	}
-	chk.Range(fmt.Sprintf("DM writer, non-digit content: 14 families (6 homogeneous, 2 mixed, 6 inside 05/06 macro envelopes) x length 1..%d x 3 shapes x {(min,nil),(nil,max) over the 30 symbol sizes}: hinted result vs the unhinted symbol (differential); the unhinted symbol is the first admissible one for the writer's own unpadded codeword count [%d writer calls]", maxN, len(jobs)*3*61), len(jobs),
+	chk.Range(fmt.Sprintf("DM writer, non-digit content: 19 families (6 homogeneous, 7 mixed incl. X12/C40/Text runs behind one or two ASCII codewords, 6 inside 05/06 macro envelopes) x length 1..%d x 3 shapes x {(min,nil),(nil,max) over the 30 symbol sizes}: hinted result vs the unhinted symbol (differential); the unhinted symbol is the first admissible one for the writer's own unpadded codeword count, and that count does not include an unlatch at the exact end of a smaller symbol [%d writer calls]", maxN, len(jobs)*3*61), len(jobs),
 		func(i int) string { return fmt.Sprint(dmFamilies[jobs[i].fam].name, " n=", jobs[i].n) },
 		func(l *mc.Local, i int) {
 			j := jobs[i]
@@ -867,6 +870,19 @@ func dmNonDigit() {
 				if want, ok := refLookup(u.k, s, nilD, nilD); ok && u.k > 0 && (want.Cols != u.w || want.Rows != u.h) {
 					chk.Violation("C13/dm/writer-size/not-smallest-for-own-codewords", fmt.Sprintf("DataMatrixWriter.Encode(%d x %q in family %s, shape %s): the symbol is %dx%d, but the writer's own data codewords (%d before the padding starts) fit the smaller %dx%d (%d codewords)", j.n, dmFamilies[j.fam].unit, dmFamilies[j.fam].name, shapeNames[s], u.w, u.h, u.k, want.Cols, want.Rows, want.DataCW),
 						dmCase{Kind: "dm-hinted", N: j.n, Shape: s, Min: nilD, Max: nilD, Family: dmFamilies[j.fam].name})
+				}
+				// end-of-data rule of ISO/IEC 16022 (5.2.5.2, 5.2.7): a C40 / Text / X12 run that ends
+				// exactly at the end of a symbol needs no unlatch. If the writer's stream ends in an
+				// unlatch codeword (254) without which it reads the same and fills an admissible
+				// smaller symbol exactly, that smaller symbol is the first one that holds the content.
+				if u.k >= 2 && u.k <= len(u.cw) && u.cw[u.k-1] == 254 {
+					if want, ok := refLookup(u.k-1, s, nilD, nilD); ok && want.DataCW == u.k-1 && (want.Cols != u.w || want.Rows != u.h) {
+						if t, e := dm.DecodeStream(u.cw[:u.k-1]); e == nil && t == content {
+							chk.Violation("C13/dm/writer-size/unlatch-at-exact-fit", fmt.Sprintf("DataMatrixWriter.Encode(%d x %q in family %s, shape %s): the symbol is %dx%d because the data ends in an unlatch codeword; without it the %d codewords read the same and fill the smaller %dx%d exactly (no unlatch is needed at the end of a full symbol)", j.n, dmFamilies[j.fam].unit, dmFamilies[j.fam].name, shapeNames[s], u.w, u.h, u.k-1, want.Cols, want.Rows),
+								dmCase{Kind: "dm-hinted", N: j.n, Shape: s, Min: nilD, Max: nilD, Family: dmFamilies[j.fam].name})
+						}
+					}
+					l.Count("dm_streams_ending_in_an_unlatch", 1)
 				}
 				for _, d := range dims[1:31] {
 					dmHintedOne(l, dmCase{Kind: "dm-hinted", N: j.n, Shape: s, Min: d, Max: nilD, Family: dmFamilies[j.fam].name}, j.fam, u)
